@@ -484,6 +484,11 @@ func (in *instrumenter) rewriteFile(p *pkgInfo, f *ast.File, name string, write 
 					args += ", " + strings.Join(cs, ", ")
 				}
 				add(off(x.Select), len("select"), "switch zzsel := "+rt+".SelectReady("+args+"); zzsel.I")
+				if !hasDefault {
+					// a select without default whose clauses all return is a
+					// terminating statement; the switch needs a default to be one
+					add(off(x.Body.Rbrace), 0, "; default: panic(\"zzsim: no select case chosen\");")
+				}
 				in.res.Seams["select"]++
 			case *ast.CommClause:
 				stmtList(x.Body)
